@@ -193,7 +193,7 @@ def rule_setlen_cap(ctx, cfg, F):
             # (c2) n = W + max(r, 0), r = recv(.., E - W), E established by a dominating justified set_len
             if not why and n_expr[0] == "bin" and n_expr[1] == "Add":
                 for W, M in ((n_expr[2], n_expr[3]), (n_expr[3], n_expr[2])):
-                    if M[0] == "call" and M[1] == "std::cmp::max":
+                    if M[0] == "call" and (M[1] in ("std::cmp::max", "std::cmp::Ord::max") or (M[1].endswith("::max") and "cmp" in M[1])):
                         rcalls = [a for a in M[2] if a[0] == "call" and a[1] in ("libc::recv", "libc::read")]
                         zero = any(a == ("const", 0) for a in M[2])
                         if rcalls and zero:
